@@ -2,8 +2,10 @@
 
 T1  translate/c20_facts.py -> Gen/C20Facts.v   tables, statement shapes of activate / deactivate / activate_context,
                                                every engine package's exports, Builder/singleton shapes
-Prf coq/props/C20.v                            instantiation (cfg_ok gen_facts) + C20_partial (all event lists, all
-                                               environments, any length) + refutation witnesses
+Prf coq/props/C20.v                            instantiation obligations on gen_facts (they guard the size of the proved domain)
+                                               + C20_partial_no_mixture (any engines) + C20_partial (session, one engine)
+                                               + C20_deactivate_restores (no restriction), all for event lists of any length
+                                               and all environments + conditional refutation witnesses
 T3  event scripts, each in a FRESH interpreter (checks/c20_worker.py): the observations (what import statements yield,
     ACTIVATE_CONFIG, the session getOrCreate returns) are compared step by step with the Coq model (impl = model?)
     and judged by the Coq Spec (impl allowed by the property?); a rejected step is classified by [diagnose] on the
@@ -275,8 +277,8 @@ def make_scripts(ctx, info, names_tables):
     scripts = [{"env": env, "events": evs, "origin": "corpus"} for env, evs in corpus(engs)]
     exh = shapes(3 if ctx.tier == "quick" else 4)
     n_exh = len(exh)
-    n_rand = 170 if ctx.tier == "quick" else 2500
-    rand = [random_shape(rnd, rnd.choice([4, 5, 5])) for _ in range(n_rand)]
+    n_rand = 170 if ctx.tier == "quick" else 1500
+    rand = [random_shape(rnd, rnd.choice([4, 5, 5]) if ctx.tier == "quick" else 5) for _ in range(n_rand)]
     k = 0
     for origin, shs in (("exhaustive", exh), ("random", rand)):
         for sh in shs:
@@ -527,7 +529,8 @@ def evaluate(ctx, keep, verdicts, proved, n_exh, n_scripts, info):
         "evaluations": n_steps, "scripts": len(keep), "distinct_nontrivial": n_nontriv,
         "rule": "evaluation = one observed step (event + what it returned + ACTIVATE_CONFIG afterwards) compared with the model "
                 "and judged by the Spec; script = core sequence over {activate a|b, deactivate, enter a|b, exit normal|raise|"
-                "session-raise} (every well-formed sequence of length <= 3 quick / <= 4 thorough, random ones of length 4-5) with "
+                "session-raise} (every well-formed sequence of length <= 3 quick / <= 4 thorough, plus random ones of length 4-5 "
+                "quick / 5 thorough; in the quick tier random scripts are skipped once 55 s of interpreter time are used) with "
                 "engines from all ordered pairs, connections, config and import/getOrCreate probes between the events and a full "
                 "view of the 13 documented paths at the end, each in a fresh interpreter; non-trivial = >= 2 core events and >= 1 "
                 "probe; distinct by (environment, event list)",
@@ -538,7 +541,7 @@ def evaluate(ctx, keep, verdicts, proved, n_exh, n_scripts, info):
         "histogram_core_events": hist_len, "histogram_event_kind": hist_kind, "histogram_environment": hist_env,
         "histogram_origin": hist_origin, "histogram_first_rejection": hist_diag,
         "facts": {k: info[k] for k in ("ctx_finally", "catch", "clear_protected", "forced", "reset", "singleton_global",
-                                       "noconn", "selfref")},
+                                       "noconn", "selfref", "cached")},
     })
     ctx.assumptions += [
         "CPython's import system behaves as Activate.importA/importS/importB say on the states activate()/deactivate() produce "
@@ -592,5 +595,5 @@ def replay(ctx: core.Ctx, rp: dict) -> int:
     ctx.coqc(ctx.build + "/gen/C20Facts.v")
     out = ctx.coq_eval(HEADER, "check " + case_term(script, res))
     m = re.search(r'"(.*)"', out, re.S)
-    print("verdict <in_domain><model conforms>:<impl=model, spec accepts, diagnosis> per step:", m.group(1) if m else out[-300:])
+    print("verdict <in_domain><model conforms><in_no_mixture_domain><model conforms there>:<impl=model, spec accepts, diagnosis> per step:", m.group(1) if m else out[-300:])
     return 0
